@@ -508,12 +508,17 @@ def run(ctx):
     ctx.attempt(r58, ctx)
     ctx.rule("R-5.10", "the acquire primitive does not evaluate the P matrix (the idle block may be empty right after the last acquire)", floor=1)
     ctx.attempt(r510, ctx)
+    ctx.rule("R-5.11", "after the re-sort the next job is drawn from a P matrix of the re-sorted rows: every function that permutes the slot list invalidates the memoised matrix before it is read again (shared with C02 R-2.1)", floor=20)
+    from . import c02 as _c02b
+    from .shared import RuleProxy as _RP5
+    ctx.attempt(_c02b.r21, _RP5(ctx, "R-5.11", " - the (row, ensemble) pair drawn next belongs to another path than the one now in that row: a path with zero weight is placed, the idle block loses its perfect matching and no job can be drawn"))
     ctx.rule("R-5.9", "the Monte-Carlo P matrix of large blocks is normalised by the number of accumulated samples (shared with C02 R-2.9): the probabilities sum to one, a job can be drawn", floor=1)
     from . import c02 as _c02
     ctx.attempt(_c02.r29, ctx, "R-5.9")
 
 
 VARIANTS = [
+    B("c05-resort-keeps-stale-matrix", REPEX, "            ]\n        self._last_prob = None\n        self.prob\n\n    def lock(self, ens):", "            ]\n        self.prob\n\n    def lock(self, ens):", "R-5.11", control=True, why="seeded C05_j"),
     B("c05-lock-refreshes-probabilities", REPEX, "        assert self._locks[ens] == 0\n        self._locks[ens] = 1\n", "        assert self._locks[ens] == 0\n        self._locks[ens] = 1\n        self._last_prob = None\n        self.prob\n", "R-5.10", control=True, why="seeded C05_i"),
     B("c05-montecarlo-divisor-off-by-one", REPEX, "        return out / (n + 1)\n", "        return out / n\n", "R-5.9", control=True, why="seeded C05_h"),
     B("c05-partner-column-by-count", REPEX, "            zero_idx = list(self.state[ens_idx][1:-1]).index(0) + 1", "            zero_idx = int(np.count_nonzero(self.state[ens_idx][:-1]))", "R-5.8", control=True, why="seeded C05_g"),
